@@ -22,6 +22,7 @@
    wrappers (call/ret/task_begin/task_end/mkclock/end).  Times are integers in units of 1/1024 (s or beat). *)
 EXTENDS Naturals, Integers, Sequences, FiniteSets, TLC, QueueOps
 
+Never == 1073741824      \* how the drivers write float('inf')
 NoCall == [api |-> "", clock |-> "", task |-> "", arg |-> 0, arg2 |-> 1, inner |-> FALSE, lin |-> TRUE]
 NoCur == [clock |-> "", task |-> "", time |-> 0, lt |-> 0, on |-> FALSE]
 NoBlk == [w |-> FALSE, dl |-> 0 - 1, nt |-> FALSE]
@@ -68,6 +69,7 @@ Lin(st, th, call, now) ==
         base == IF call.inner /\ c # "app" THEN Get(st.cur, th, NoCur).lt ELSE now
     IN
     IF c \in st.stopped THEN st ELSE       \* a stopped clock refuses (ClockNotRunning)
+    IF call.api \in {"sched", "sched_abs"} /\ call.arg >= Never THEN st ELSE   \* an infinite delay schedules nothing
     CASE call.api = "sched" ->
             LET time == IF IsTempo(c) THEN S2B(st.map[c], base) + call.arg ELSE base + call.arg
                 q == Insert(Without(st.pend[c], call.task), [p |-> time, s |-> st.ctr, t |-> call.task])
